@@ -28,13 +28,13 @@ type funcCase struct {
 
 func drawFunc(t *rapid.T) funcCase {
 	c := funcCase{
-		Fn:    rapid.SampledFrom([]string{"inverse", "inverse", "pow", "exp", "exp", "powpsd"}).Draw(t, "fn"),
+		Fn:    rapid.SampledFrom([]string{"inverse", "inverse", "pow", "exp", "exp", "powpsd", "inversetri"}).Draw(t, "fn"),
 		LogK:  rapid.SampledFrom([]int{0, 1, 3, 6}).Draw(t, "logk"),
 		Pow:   rapid.IntRange(0, 9).Draw(t, "pow"),
 		P:     rapid.SampledFrom([]float64{0.5, -0.5, 1, 2, -1, 0.3, 0, 3, -2}).Draw(t, "p"),
 		Norm:  rapid.SampledFrom([]float64{0, 0.01, 0.014, 0.016, 0.2, 0.26, 0.9, 1, 2, 2.2, 5, 5.5, 12, 30}).Draw(t, "norm"),
 		AKind: rapid.IntRange(0, 15).Draw(t, "akind"),
-		Dst:   rapid.IntRange(0, nDst-1).Draw(t, "dst"),
+		Dst:   rapid.IntRange(0, dAliasT).Draw(t, "dst"),
 		Seed:  vk.SeedGen(t, "seed"),
 	}
 	switch c.Fn {
@@ -47,11 +47,30 @@ func drawFunc(t *rapid.T) funcCase {
 	case "exp":
 		c.N = vk.Dim(t, "n", 1, 10, 2, 4)
 		c.Class = rapid.SampledFrom([]string{"general", "general", "sym", "nilpotent", "diag"}).Draw(t, "class")
+	case "inversetri":
+		c.N = vk.Dim(t, "n", 1, 30, 8, 16)
+		c.Class = rapid.SampledFrom([]string{"well", "well", "zero-diag", "illcond"}).Draw(t, "class")
 	case "powpsd":
 		c.N = vk.Dim(t, "n", 1, 30, 8, 16)
-		c.Class = rapid.SampledFrom([]string{"spd", "spd", "spd", "notpd"}).Draw(t, "class") // a zero eigenvalue is on the boundary: undecidable in floating point
+		// A zero eigenvalue is on the boundary and in general undecidable in
+		// floating point; the classes zero / diag-zero / block-zero are the
+		// decidable part: EigenSym computes their smallest eigenvalue as exactly 0
+		// (verified per case in the check), semidef is asserted only through the
+		// computed eigenvalues.
+		c.Class = rapid.SampledFrom([]string{"spd", "spd", "spd", "notpd", "zero", "diag-zero", "block-zero", "semidef"}).Draw(t, "class")
 	}
 	return c
+}
+
+// dAliasT is one more destination state of the matrix functions: the receiver is
+// the argument's underlying matrix and the argument is its transpose, m.F(m.T()).
+const dAliasT = nDst
+
+func funcDstName(d int) string {
+	if d == dAliasT {
+		return "alias-transposed"
+	}
+	return dstNames[d]
 }
 
 // bigMat is an n×n matrix of 320-bit floats.
@@ -136,7 +155,7 @@ func checkFunc(c funcCase) *vk.Failure {
 	n := c.N
 	sm := vk.NewSplitMix(c.Seed)
 	vk.Class("func/" + c.Fn + "/class=" + c.Class)
-	vk.Class("func/" + c.Fn + "/dst=" + dstNames[c.Dst])
+	vk.Class("func/" + c.Fn + "/dst=" + funcDstName(c.Dst))
 	vk.Sample("func-"+c.Fn, c)
 	fn := float64(n)
 
@@ -148,7 +167,10 @@ func checkFunc(c funcCase) *vk.Failure {
 		}
 		var a mat.Matrix
 		var alias *mat.Dense
-		if c.Dst == dAlias {
+		dstState := c.Dst
+		switch c.Dst {
+		case dAlias:
+			// m.F(m)
 			if sm.Intn(2) == 0 {
 				alias = denseOf(A)
 			} else {
@@ -156,11 +178,22 @@ func checkFunc(c funcCase) *vk.Failure {
 			}
 			a = alias
 			ak = kDense
-		} else {
+		case dAliasT:
+			// m.F(m.T()): m stores A', so that the argument is the logical A and
+			// the expected result is F(A), computed from an explicit copy.
+			if sm.Intn(2) == 0 {
+				alias = denseOf(A.t())
+			} else {
+				alias = denseView(A.t(), sm)
+			}
+			a = alias.T()
+			ak = kTrans
+			dstState = dAlias
+		default:
 			a = mkMat(ak, A, st, sm)
 		}
-		dst, stt := mkDst(c.Dst, n, n, alias, sm)
-		label := fmt.Sprintf("a=%s dst=%s", kindNames[ak], dstNames[stt])
+		dst, stt := mkDst(dstState, n, n, alias, sm)
+		label := fmt.Sprintf("a=%s dst=%s", kindNames[ak], funcDstName(c.Dst))
 		err := call(dst.d, a)
 		if stt != dAlias && !sameM(toM(a), A) {
 			return nil, err, label, failf(c.Fn+"-modified-a", "the argument was modified (%s)", label)
@@ -317,16 +350,187 @@ func checkFunc(c funcCase) *vk.Failure {
 		}
 		return nil
 
+	case "inversetri":
+		// TriDense.InverseTri: T*X = I, X of the same triangle kind, exactly
+		// singular => Condition(+Inf), ill-conditioned => Condition error
+		// (documented: "If a is ill-conditioned, a Condition error will be returned").
+		upper := sm.Intn(2) == 0
+		T := newM(n, n)
+		for i := 0; i < n; i++ {
+			for j := 0; j < n; j++ {
+				if (upper && j > i) || (!upper && j < i) {
+					T.d[i*n+j] = sm.Finite() / float64(n)
+				}
+			}
+			T.d[i*n+i] = (1 + sm.Float()) * float64(1-2*sm.Intn(2))
+		}
+		switch c.Class {
+		case "zero-diag":
+			T.d[sm.Intn(n)*(n+1)] = 0
+		case "illcond":
+			T.d[sm.Intn(n)*(n+1)] *= 1e-22
+		}
+		kind := mat.Lower
+		if upper {
+			kind = mat.Upper
+		}
+		mkTri := func(X *M, k mat.TriKind) *mat.TriDense {
+			td := mat.NewTriDense(n, k, nil)
+			raw := td.RawTriangular()
+			for i := range raw.Data {
+				raw.Data[i] = nan // the other triangle must not be referenced
+			}
+			for i := 0; i < n; i++ {
+				for j := 0; j < n; j++ {
+					if (k == mat.Upper && j >= i) || (k == mat.Lower && j <= i) {
+						td.SetTri(i, j, X.at(i, j))
+					}
+				}
+			}
+			return td
+		}
+		form := c.AKind % 4
+		var a mat.Triangular
+		var dst *mat.TriDense
+		switch {
+		case c.Dst == dAlias || c.Dst == dAliasT:
+			td := mkTri(T, kind)
+			a, dst = td, td
+			form = 4
+		case form == 0:
+			a = mkTri(T, kind)
+		case form == 1:
+			// the transpose of a triangle of the other kind holding T'
+			ok := mat.Upper
+			if upper {
+				ok = mat.Lower
+			}
+			a = mkTri(T.t(), ok).TTri()
+		case form == 2 && upper:
+			a = basicTri{basicMat{T.clone()}}
+		default:
+			a = mkTri(T, kind)
+		}
+		if dst == nil {
+			if c.Dst == dSized || c.Dst == dView {
+				dst = garbageTri(n, kind)
+			} else {
+				dst = &mat.TriDense{}
+			}
+		}
+		vk.Class(fmt.Sprintf("func/inversetri/form=%d", form))
+		if n >= 2 {
+			vk.NonTrivial("func", c.Fn, n, c.Class, form, c.Dst, upper)
+		}
+		err := dst.InverseTri(a)
+		desc := fmt.Sprintf("n=%d class %s upper=%v form=%d dst=%s", n, c.Class, upper, form, funcDstName(c.Dst))
+		if c.Class == "zero-diag" {
+			cv, ok := condOf(err)
+			if !ok || !math.IsInf(cv, 1) {
+				return failf("inversetri-singular-no-error", "%s: InverseTri of a triangular matrix with an exactly zero diagonal entry returned err=%v", desc, err)
+			}
+			return nil
+		}
+		_, _, inv, okInv := luRef(T)
+		if !okInv {
+			return nil
+		}
+		kinf := normInf(T) * normInf(inv)
+		if err != nil {
+			cv, ok := condOf(err)
+			if !ok {
+				return failf("inversetri-error-type", "%s: error %v is not a mat.Condition", desc, err)
+			}
+			if c.Class == "well" {
+				return failf("inversetri-spurious-error", "%s: %v for kappa_inf=%g", desc, err, kinf)
+			}
+			if !(cv > mat.ConditionTolerance) {
+				return failf("inversetri-error-value", "%s: Condition error %g does not exceed ConditionTolerance", desc, cv)
+			}
+			return nil
+		}
+		// no error: the condition estimate (which is at least ||T||*altLower) must
+		// not exceed ConditionTolerance
+		if lo := normInf(T) * altLower(inv.t()); lo > mat.ConditionTolerance*(1+1e-3) {
+			return failf("inversetri-missed-condition-error", "%s: InverseTri returned nil although the condition estimate is at least %g (kappa_inf=%g) > ConditionTolerance; Dense.Inverse reports a Condition error for such input", desc, lo, kinf)
+		}
+		if c.Class != "well" {
+			return nil
+		}
+		if k2, kk := dst.Triangle(); k2 != n || kk != kind {
+			return failf("inversetri-shape", "%s: result is %d×%d kind %v", desc, k2, k2, kk)
+		}
+		X := triToM(dst)
+		if X.hasNaN() {
+			return failf("inversetri-nonfinite", "%s: NaN/Inf in the inverse", desc)
+		}
+		R := mul(T, X)
+		for i := 0; i < n; i++ {
+			R.d[i*n+i] -= 1
+		}
+		// triangular inversion: |T X - I| <= c n eps |T||X| (Higham, ASNA 14.2)
+		tol := cOrth * fn * eps * frob(T) * frob(X)
+		if !leq(frob(R), tol) {
+			return failf("inversetri-residual", "%s: ||T*X-I||_F=%g exceeds %g", desc, frob(R), tol)
+		}
+		return nil
+
 	case "powpsd":
-		g := genSymClass(c.Class, n, minInt(c.LogK, 3), 0, sm)
+		var g symGen
+		switch c.Class {
+		case "zero", "diag-zero", "block-zero", "semidef":
+			g = symGen{A: newM(n, n), st: struc{sym: true, band: -1}}
+			A := g.A
+			switch c.Class {
+			case "diag-zero", "block-zero":
+				for i := 0; i < n; i++ {
+					A.d[i*n+i] = float64(1 + sm.Intn(4))
+				}
+				if c.Class == "block-zero" && n >= 2 {
+					// the singular block s*[[1,2],[2,4]] in rows/columns i < j
+					p := sm.Perm(n)
+					i, j := minInt(p[0], p[1]), maxInt(p[0], p[1])
+					sc := math.Ldexp(1, sm.Intn(5)-2)
+					A.d[i*n+i], A.d[i*n+j], A.d[j*n+i], A.d[j*n+j] = sc, 2*sc, 2*sc, 4*sc
+				} else {
+					for k := 0; k <= sm.Intn(2); k++ {
+						i := sm.Intn(n)
+						A.d[i*n+i] = 0
+					}
+				}
+			case "semidef":
+				lam := logSpaced(n, 1, 10, sm)
+				lam[n-1] = 0
+				g.A = genSym(n, lam, sm)
+			}
+		default:
+			g = genSymClass(c.Class, n, minInt(c.LogK, 3), 0, sm)
+		}
 		A := g.A
 		sk := pickSymKind(c.AKind, g.st)
-		if n >= 2 && (sk != sSym || c.Dst != dEmpty || g.notpd) {
+		if n >= 2 && (sk != sSym || c.Dst != dEmpty || c.Class != "spd") {
 			vk.NonTrivial("func", c.Fn, n, c.Class, sk, c.Dst, c.P)
+		}
+		// The smallest eigenvalue as EigenSym computes it for this very input.
+		var es mat.EigenSym
+		vmin := math.NaN()
+		if es.Factorize(mkSym(sSym, A, g.st, sm), true) {
+			vmin = es.Values(nil)[0]
+		}
+		switch c.Class {
+		case "zero", "diag-zero", "block-zero":
+			if vmin == 0 {
+				vk.Class("func/powpsd/computed-lambda-min-exactly-zero")
+			} else {
+				vk.Class("func/powpsd/computed-lambda-min-not-exactly-zero")
+			}
 		}
 		var as mat.Symmetric
 		var dst *mat.SymDense
 		state := c.Dst
+		if state == dAliasT {
+			state = dAlias // a symmetric matrix is its own transpose
+		}
 		switch state {
 		case dAlias:
 			d := mkSym(sSym, A, g.st, sm).(*mat.SymDense)
@@ -342,6 +546,21 @@ func checkFunc(c funcCase) *vk.Failure {
 			if err == nil {
 				return failf("powpsd-notpd-accepted", "PowPSD returned nil error for class %s n=%d", c.Class, n)
 			}
+			return nil
+		}
+		// Decidable boundary: a matrix whose smallest eigenvalue is computed as
+		// zero or negative by EigenSym is not positive definite for PowPSD, which
+		// is built on the same EigenSym computation.
+		if vmin <= 0 && err == nil {
+			return failf("powpsd-nonpositive-eigenvalue-accepted", "PowPSD(a, %g) returned nil error although EigenSym computes the smallest eigenvalue of a as %v (class %s n=%d a=%s): documented to return an error if the matrix is not positive definite", c.P, vmin, c.Class, n, symKindNames[sk])
+		}
+		if err == nil {
+			// never a silently non-finite result (lambda^p itself is finite here)
+			if X := toM(dst); X.hasNaN() && math.Abs(c.P*math.Log(vmin)) < 600 {
+				return failf("powpsd-nonfinite-result", "PowPSD(a, %g) returned nil error and a result with NaN/Inf (class %s n=%d lambda_min=%v)", c.P, c.Class, n, vmin)
+			}
+		}
+		if c.Class != "spd" {
 			return nil
 		}
 		if err != nil {
@@ -367,7 +586,7 @@ func checkFunc(c funcCase) *vk.Failure {
 		tol := cOrth * fn * eps * (1 + math.Abs(c.P)) * kappa * fmax * math.Sqrt(fn)
 		X := toM(dst)
 		if d := frob(subM(X, ref)); !leq(d, tol) {
-			return failf("powpsd", "n=%d p=%g kappa=%g: ||PowPSD-ref||_F=%g exceeds %g (dst=%s a=%s)", n, c.P, kappa, d, tol, dstNames[state], symKindNames[sk])
+			return failf("powpsd", "n=%d p=%g kappa=%g: ||PowPSD-ref||_F=%g exceeds %g (dst=%s a=%s)", n, c.P, kappa, d, tol, funcDstName(c.Dst), symKindNames[sk])
 		}
 		return nil
 	}
